@@ -18,7 +18,7 @@ PROP = dict(
                            "state:walk-bound-reached": 1000, "mpt_iterator_consume": 50000,
                            "text:linear": 10000, "text:factor": 10000, "text:range": 10000, "text:values": 10000, "text:mutated": 10000,
                            "direct:boundary": 5000, "direct:linear": 5000, "direct:profile": 10000, "direct:string": 5000, "direct:buffer": 5000,
-                           "direct:from-iterator": 5000, "direct:from-string-iterator": 2000, "direct:file": 5000, "file:query-without-destination": 5000, "string:blank-runs": 2000, "string:extra-reads": 5000, "string:extra-reads-refused": 300, "string:extra-reads-accepted": 1000, "monitor:consume-on-exhausted": 100000, "mpt_values_linear": 3000, "mpt_values_bound": 3000}),
+                           "direct:from-iterator": 5000, "direct:from-string-iterator": 2000, "direct:file": 5000, "monitor:clone-reset-replays": 20000, "file:query-without-destination": 5000, "string:blank-runs": 2000, "string:extra-reads": 5000, "string:extra-reads-refused": 300, "string:extra-reads-accepted": 1000, "monitor:consume-on-exhausted": 100000, "mpt_values_linear": 3000, "mpt_values_bound": 3000}),
               dict(name="c19_cxx", memcheck=500, src=["c19_cxx.cpp"], libs=["mpt++", "mptio", "mptplot", "mptcore"], batch=512, lsan=True,
                    cflags=["-fno-sanitize=vptr"],
                    floors={"source<T>": 100000, "source:backward": 40000, "source:forward": 40000, "c-iterator": 15000,
